@@ -6,7 +6,7 @@
    which the harness writes after evaluating `failures CacheCfg.cfg`. *)
 From Coq Require Import String List Bool.
 Import ListNotations.
-From FV.C19 Require Import Model Proofs ProofsToy.
+From FV.C19 Require Import Model Proofs ProofsToy Slot SlotProofs.
 Open Scope string_scope.
 
 Section Statement.
@@ -160,6 +160,64 @@ Theorem C19_hypotheses_satisfiable : forall cfg, cfg_ok cfg = true ->
   = Some (tsem cfg q a (o_mesh tmesh ob)).
 Proof. exact toy_purity. Qed.
 
+(* ------------------------------------------------------------------------
+   The in-mesh result slots (elemental_data['area' | 'volume' | 'metric']),
+   concretely: Slot.v is an executable model over exact rationals of
+   _validate_metric / _slot_answers / _store_slot and of the slot branch and
+   store tail of calculate_element_areas / _volumes / _metrics; it is tied to
+   the implementation on every run by evaluating slot_trace inside Coq on the
+   option sequences the implementation ran on (harness/c19_slots.py).
+   What the generic machine assumes about slots (H_post: re-validation is
+   idempotent; the slot key decides) is proved here for the code as it is. *)
+
+(* re-validating a validated result returns it *)
+Theorem C19_slot_revalidation_idempotent : forall o m v,
+  validate o m = Val v -> validate o v = Val v.
+Proof. exact validate_idempotent. Qed.
+
+(* Every call of every history of calls with arbitrary options, on a table in
+   any state the protocol produces (empty, a library entry, or a variable of
+   that name the user stored), answers what the same call answers on a
+   freshly built equal mesh; the table stays valid and the user's part of it
+   is unchanged. *)
+Theorem C19_slot_history_pure : forall signed h t, valid_table signed t ->
+  Forall2 (fun o v => v = fresh_answer signed t o) h (fst (slot_run signed t h)) /\
+  valid_table signed (snd (slot_run signed t h)) /\
+  user_part (snd (slot_run signed t h)) = user_part t.
+Proof. exact slot_run_pure. Qed.
+
+Theorem C19_slot_history_independent : forall signed t h1 h2 o, valid_table signed t ->
+  fst (slot_query signed (snd (slot_run signed t h1)) o) =
+  fst (slot_query signed (snd (slot_run signed t h2)) o).
+Proof. exact slot_history_independent. Qed.
+
+(* queries never change (nor replace) a variable named like a slot that the
+   user stored, whatever options they are called with *)
+Theorem C19_slot_user_variable_kept : forall signed h u, e_opts u = None ->
+  snd (slot_run signed (Some u) h) = Some u.
+Proof. exact slot_run_keeps_user. Qed.
+
+(* after an in-place modification (which drops the entries) later calls
+   answer for the modified mesh, whatever was asked before *)
+Theorem C19_slot_reflects_modification : forall signed signed' t h o,
+  fst (slot_query signed' (drop_slot (snd (slot_run signed t h))) o) = validate o (signed' (o_mode o)).
+Proof. exact slot_after_modification. Qed.
+
+(* non-vacuity: SlotProofs.ex_run (absolute, signed, other mode, raising and
+   absolute again on a mesh with an inverted element: the table is valid and
+   the answers differ from one another) and ex_user_kept (a user's variable
+   with a negative entry survives all of them) *)
+Example C19_slot_nonvacuous :
+  valid_table ex_signed (snd (slot_run ex_signed None ex_hist)) /\
+  snd (slot_run ex_signed (Some ex_user) ex_hist) = Some ex_user /\
+  nth 0 (fst (slot_run ex_signed None ex_hist)) Raise <> nth 1 (fst (slot_run ex_signed None ex_hist)) Raise.
+Proof. split; [exact (proj2 ex_run)|]. split; [vm_compute; reflexivity|vm_compute; discriminate]. Qed.
+
 Print Assumptions C19_purity.
 Print Assumptions C19_queries_preserve.
 Print Assumptions C19_writers_preserve.
+Print Assumptions C19_slot_revalidation_idempotent.
+Print Assumptions C19_slot_history_pure.
+Print Assumptions C19_slot_history_independent.
+Print Assumptions C19_slot_user_variable_kept.
+Print Assumptions C19_slot_reflects_modification.
